@@ -396,6 +396,12 @@ func (x *SX) localStruct(base Term) (structObj, bool) {
 			return so, false
 		}
 		so, typ = structObj{key: fmt.Sprintf("var%d", b.Obj.Pos())}, b.Obj.Type()
+	case TBuiltin:
+		// new(T): a zero-valued struct made on this path
+		if b.Name != "new" || b.Epoch >= 0 || b.Type == nil {
+			return so, false
+		}
+		so, typ = structObj{key: fmt.Sprintf("new%d", -b.Epoch)}, b.Type
 	default:
 		return so, false
 	}
